@@ -151,12 +151,15 @@ def main():
         ins = i % 3 == 2
         variants = INS_VARIANTS if ins else STD_VARIANTS
         vname, model, kw = variants[(i // 3) % len(variants)]
-        sname, sched = SCHEDULES[int(rng.integers(len(SCHEDULES)))] if not ins else ("every-iteration", dict(checkpoint_on_iteration=True, checkpoint_interval=int(rng.choice([1, 1, 2]))))
+        sname, sched = SCHEDULES[int(rng.integers(len(SCHEDULES)))] if not ins else ("every-iteration", dict(checkpoint_on_iteration=True, checkpoint_interval=1 if chk.quick else int(rng.choice([1, 1, 2]))))
         kw = dict(kw, checkpointing=True, seed=int(rng.integers(1, 2**31 - 1)), **sched)
         nk = int(rng.integers(1, 4 if chk.quick else 6))
-        hi = 900 if ins else 700
-        kills = [int(rng.integers(1, hi)) for _ in range(nk)]
-        if rng.random() < 0.3:
+        # the importance sampler checkpoints at iteration boundaries (every ~400 likelihood points here): kill points are spread so that most histories
+        # contain at least one completed checkpoint, and some are killed before the first one
+        kills = [int(rng.integers(450, 1300)) if ins else int(rng.integers(1, 700)) for _ in range(nk)]
+        if ins:
+            kills[0] = int(rng.integers(850, 1550))   # after the first iteration-boundary checkpoint (written at 800 points), before convergence
+        if rng.random() < (0.15 if ins else 0.3):
             kills[0] = int(rng.integers(1, 120))   # during the initial draws / early uninformed phase
         cases.append(dict(idx=i, sampler="ins" if ins else "std", variant=vname, model=model, kwargs=kw, schedule=sname, kills=kills,
                           outdir=os.path.join(chk.scratch, f"hist-{i}"), seg_timeout=300, _timeout=300 * (nk + 1) + 60))
@@ -183,6 +186,7 @@ def main():
         chk.count("kills_delivered", st["kills"])
         chk.count("checkpoints_digested", st["checkpoints"])
         chk.count("restores_compared", st["restores"])
+        chk.count("restores_compared_" + c["sampler"], st["restores"])
         chk.count("state_fields_compared", st["fields_compared"])
         chk.count("histories_completed", 1 if st.get("done") else 0)
         for k, v in st["allowed_kinds"].items():
@@ -199,7 +203,7 @@ def main():
                "field by field after restore inside the real run path; evaluation counts and timings are checked cumulatively against the user-boundary call log of every "
                "segment; the C01/C03/C05 monitors stay armed in every segment and on the final result. Non-trivial = history with at least one compared restore that ran "
                "to completion; distinct by (variant, schedule, kill points, seed).",
-               require_observed=["restores_compared", "state_fields_compared", "histories_completed", "kills_delivered"])
+               require_observed=["restores_compared", "restores_compared_std", "restores_compared_ins", "state_fields_compared", "histories_completed", "kills_delivered"])
 
 
 if __name__ == "__main__":
